@@ -17,7 +17,7 @@ PID = 'C03'
 
 META = {
     'technique': 'type-resolved field def-use: fields read through the copied input header in pipeline code vs fields stored by the copy-in functions and the pool creator; sibling agreement of the two copy functions; reaching sources of the packet timestamp / private-pointer stores',
-    'text': 'Decides the propagation clause of C03: what a packet reports (pts, dts, application pointer, picture type, qp, flags, metadata) can only be right if the copy-in functions populate every header field that is read downstream and the packetization thread stores them from the displayed picture. Counting packets, their order and EOS placement are run-time queue properties and are not decided. Also decided: every computation on a timestamp (the show-existing queue is ordered by pts) stays in the signed 64-bit type - no narrowing or unsigned cast or local.',
+    'text': 'Decides the propagation clause of C03: what a packet reports (pts, dts, application pointer, picture type, qp, flags, metadata) can only be right if the copy-in functions populate every header field that is read downstream and the packetization thread stores them from the displayed picture. Counting packets, their order and EOS placement are run-time queue properties and are not decided. Also decided: every computation on a timestamp (the show-existing queue is ordered by pts) stays in the signed 64-bit type - no narrowing or unsigned cast or local. Also decided: the end-of-stream chain - input flags & EOS -> end_of_sequence_flag -> terminating picture -> EOS bit of exactly that packet, moved to the trailing show-existing packet when there is one.',
     'note': 'fields the application never sets (n_tick_count, size ...) are irrelevant: the rule is "read implies populated"',
     'ref': 'DESIGN.md section 5 C03',
 }
@@ -166,3 +166,84 @@ def run(P, rep, tier):
                    'timestamp computation stays in the signed 64-bit type' if bad is None else
                    bad + ': narrower / unsigned arithmetic reorders some timestamp pairs (differences >= 2^31, negative pts)')
     rep.floor('C03.PTSWIDTH', 1)
+
+    # ---------------- EOS: the end-of-stream flag of the application's last picture arrives on exactly the last packet.  Chain of
+    # necessary links, each a dependence visible in the code:
+    #   input flags & EOS -> pcs.end_of_sequence_flag (resource coordination)
+    #   pcs.end_of_sequence_flag -> EncodeContext.terminating_sequence_flag_received / terminating_picture_number (picture decision)
+    #   those two -> the EOS bit of the packet's flags (packetization)
+    #   when the EOS packet is followed by a show-existing packet, the bit moves to that packet (cleared on one, set on the other)
+    from rules.C20 import value_reads
+    EOSV = 1
+
+    def lit_name(x, name):
+        x = strip(x)
+        return bool(x) and x[0] == 'l' and len(x) > 2 and x[2] and name in str(x[2])
+
+    def reads(e):
+        return {x[1] for x in value_reads(e) if x[0] == 'm'}
+
+    def ctl_reads(f, ev):
+        out = set()
+        for kind, cond, line in f.ctl_chain(ev):
+            if cond is not None and not isinstance(cond[0], list):
+                out |= reads(cond)
+        return out
+    rc = P.fn('resource_coordination_kernel')
+    l1 = []
+    for ev in rc.events(('st', 'decl')):
+        e = ev.get('e')
+        if e is None:
+            continue
+        rhs = e if ev['k'] == 'decl' else (e[3] if e[0] == 'a' else None)
+        if rhs is not None and any(lit_name(x, 'EB_BUFFERFLAG_EOS') for x in subexprs(rhs)) and HDR + 'flags' in reads(rhs):
+            l1.append(ev)
+    rep.ob('C03.EOS', 'link1:input-flags->end_of_sequence_flag', bool(l1), rc.loc(l1[0]) if l1 else rc.loc(),
+           'resource coordination derives the end-of-sequence state from (input flags & EB_BUFFERFLAG_EOS)' if l1 else
+           'nothing in resource_coordination_kernel tests the submitted picture\'s flags for EB_BUFFERFLAG_EOS')
+    tsf = 'EncodeContext.terminating_sequence_flag_received'
+    tpn = 'EncodeContext.terminating_picture_number'
+    l2 = []
+    for g in P.fns:
+        if g.lib != 'Encoder' or g.nocfg:
+            continue
+        for ev in g.events(('st',)):
+            e = ev['e']
+            if e[0] == 'a' and last_field(strip(e[2])) == tsf and not (strip(e[3])[0] == 'l' and strip(e[3])[1] == 0):
+                l2.append((g, ev, any(x.endswith('.end_of_sequence_flag') for x in ctl_reads(g, ev) | reads(e[3]))))
+    rep.ob('C03.EOS', 'link2:end_of_sequence_flag->terminating', bool(l2) and all(ok for _, _, ok in l2), l2[0][0].loc(l2[0][1]) if l2 else pk.loc(),
+           ('terminating_sequence_flag_received is raised in %s under a condition on end_of_sequence_flag' % sorted({g.name for g, _, _ in l2})) if (l2 and all(ok for _, _, ok in l2)) else
+           'terminating_sequence_flag_received is raised without consulting end_of_sequence_flag (or never)')
+    l3 = []
+    for g in scope:
+        for ev in g.events(('st',)):
+            e = ev['e']
+            if e[0] == 'a' and last_field(strip(e[2])) == HDR + 'flags' and any(lit_name(x, 'EB_BUFFERFLAG_EOS') for x in subexprs(e[3])) and e[1] in ('|=', '='):
+                if g.name in ('set_eos_flag',):
+                    continue
+                dep = reads(e[3]) | ctl_reads(g, ev)
+                l3.append((g, ev, tsf in dep and tpn in dep))
+    rep.ob('C03.EOS', 'link3:terminating->packet-flags', bool(l3) and all(ok for _, _, ok in l3), l3[0][0].loc(l3[0][1]) if l3 else pk.loc(),
+           'the packet EOS bit is set from terminating_sequence_flag_received && decode_order == terminating_picture_number' if (l3 and all(ok for _, _, ok in l3)) else
+           'the packet EOS bit is set without comparing against the terminating picture (or never set)')
+    clears = [ev for ev, n in pk.calls('clear_eos_flag')]
+    sets = [ev for ev, n in pk.calls('set_eos_flag')]
+    def reaches(f, a, b):
+        seen, st = set(), [a['b']]
+        first = True
+        while st:
+            x = st.pop()
+            if x == b['b'] and (not first or b['x'] > a['x'] or x != a['b']):
+                if x != a['b'] or b['x'] > a['x'] or not first:
+                    return True
+            first = False
+            if x in seen:
+                continue
+            seen.add(x)
+            st.extend(s2 for s2 in f.blocks[x]['succ'] if s2 is not None)
+        return False
+    moved = bool(clears) and bool(sets) and all(any(reaches(pk, c, s2) for s2 in sets) for c in clears)
+    rep.ob('C03.EOS', 'link4:eos-moves-to-show-existing', moved, pk.loc(clears[0]) if clears else pk.loc(),
+           'when the EOS packet is followed by a show-existing packet the bit is cleared on the first and set on the second' if moved else
+           'the EOS bit is cleared for a packet with a trailing show-existing frame but not set on that frame\'s packet (or the hand-over is gone): the stream ends without EOS or with EOS before the last packet')
+    rep.floor('C03.EOS', 4)
